@@ -276,6 +276,191 @@ theorem multipart_roundtrip_counterexample : ¬ MultipartRoundtrips := by
   revert this
   decide +kernel
 
+/-! ### Set-Cookie: one header per cookie -/
+
+/-- `Response._get_cookies` at the level of pair lists: every cookie found in every Set-Cookie header (empty ones skipped) -/
+def getSetCookies (hdrs : List Str) : List (List (Str × Option Str)) := (hdrs.flatMap parseSetCookie).filter (· ≠ [])
+/-- `Response._set_cookies`: one header per cookie -/
+def setSetCookies (cs : List (List (Str × Option Str))) : List Str := cs.map formatSetCookie
+
+private def scSpecials : List Str := [S "expires", S "path"]
+
+/-- what a Set-Cookie header can carry for one name / attribute: the key has no `;` `=` `,` and no leading whitespace; a key without
+    value is non-empty; a value that the formatter leaves unquoted (because the key is `expires`/`path`) has no `;` `,`, does not
+    start with a quote, and an `expires` value is longer than 3 characters (the reader's heuristic) -/
+def RepSc (e : Str × Option Str) : Prop :=
+  (∀ x ∈ e.1, isSemiEqComma x = false) ∧ lstrip e.1 = e.1 ∧
+  match e.2 with
+  | none => e.1 ≠ []
+  | some v => scSpecials.contains (lower e.1) = true →
+      ((∀ x ∈ v, isSemiComma x = false) ∧ v.head? ≠ some 34 ∧ (lower e.1 = S "expires" → 3 < v.length))
+
+private def fmtSc (e : Str × Option Str) : Str := fmtPair scSpecials e.1 e.2
+
+private theorem notSpecial' (v : Str) (h : hasSpecial v = false) : ∀ x ∈ v, x ≠ 34 ∧ isSemiComma x = false := by
+  intro x hx
+  unfold hasSpecial at h
+  have hx' := (List.any_eq_false.mp h) x hx
+  have hs : specialC x = false := by simpa using hx'
+  unfold specialC at hs
+  simp only [Bool.or_eq_false_iff, decide_eq_false_iff_not] at hs
+  obtain ⟨⟨⟨⟨⟨h34, h44⟩, h59⟩, _⟩, _⟩, _⟩ := hs
+  exact ⟨h34, by simp [isSemiComma, h59, h44]⟩
+
+private theorem sc_step_fmt (st : ScState) (pre : Str) (e : Str × Option Str) (tail : Str) (hp : pre = [] ∨ pre = [32])
+    (he : RepSc e) (ht : tail = [] ∨ ∃ t, tail = 59 :: t) :
+    scStep st (pre ++ fmtSc e ++ tail) = ({ cookies := st.cookies, pairs := st.pairs ++ [e] }, tail.drop 1) := by
+  obtain ⟨k, ov⟩ := e
+  obtain ⟨hk, hl, hv⟩ := he
+  simp only at hk hl hv
+  have hA : ∀ x ∈ pre ++ k, isSemiEqComma x = false := by
+    intro x hx
+    rw [List.mem_append] at hx
+    rcases hx with hx | hx
+    · rcases hp with rfl | rfl
+      · cases hx
+      · simp at hx; subst hx; decide
+    · exact hk x hx
+  have hstrip : lstrip (pre ++ k) = k := by
+    rcases hp with rfl | rfl
+    · simpa using hl
+    · show lstrip (32 :: k) = k
+      unfold lstrip at hl ⊢
+      rw [List.dropWhile_cons_of_pos isSpace_32]; exact hl
+  have htail44 : ∀ (P : ScState) (Q : ScState), (match tail with | 44 :: _ => P | _ => Q) = Q := by
+    intro P Q
+    rcases ht with rfl | ⟨t, rfl⟩ <;> rfl
+  cases ov with
+  | none =>
+    have hne : k ≠ [] := hv
+    have hform : pre ++ fmtSc (k, none) ++ tail = (pre ++ k) ++ tail := by simp [fmtSc, fmtPair]
+    have hread : readUntil isSemiEqComma ((pre ++ k) ++ tail) = (pre ++ k, tail) := by
+      rcases ht with rfl | ⟨t, rfl⟩
+      · simpa using readUntil_all isSemiEqComma (pre ++ k) hA
+      · exact readUntil_stop isSemiEqComma (pre ++ k) 59 t hA (by decide)
+    unfold scStep
+    rw [hform, hread]
+    simp only [hstrip]
+    rcases ht with rfl | ⟨t, rfl⟩ <;> simp [hne]
+  | some v =>
+    have hv' : scSpecials.contains (lower k) = true →
+        ((∀ x ∈ v, isSemiComma x = false) ∧ v.head? ≠ some 34 ∧ (lower k = S "expires" → 3 < v.length)) := hv
+    have hexp_sp : lower k = S "expires" → scSpecials.contains (lower k) = true := by intro h; rw [h]; decide
+    have hfmt : fmtSc (k, some v) =
+        if (!(scSpecials.contains (lower k)) && hasSpecial v) = true then k ++ 61 :: 34 :: (escape v ++ [34]) else k ++ 61 :: v := rfl
+    have hunq : (∀ x ∈ v, isSemiComma x = false) → v.head? ≠ some 34 → readValue isSemiComma (v ++ tail) = (v, tail) := by
+      intro hall hhead
+      cases v with
+      | nil =>
+        rcases ht with rfl | ⟨t, rfl⟩
+        · simp [readValue]
+        · simp [readValue, readUntil, isSemiComma]
+      | cons c v' =>
+        have hc : c ≠ 34 := by simpa using hhead
+        simp only [List.cons_append, readValue, hc, if_false]
+        rcases ht with rfl | ⟨t, rfl⟩
+        · simpa using readUntil_all isSemiComma (c :: v') hall
+        · exact readUntil_stop isSemiComma (c :: v') 59 t hall (by decide)
+    have hval : ∃ X, fmtSc (k, some v) = k ++ 61 :: X ∧ readValue isSemiComma (X ++ tail) = (v, tail) ∧
+        ¬ (lower k = S "expires" ∧ v.length ≤ 3) := by
+      rw [hfmt]
+      cases hsp : scSpecials.contains (lower k) <;> cases hhs : hasSpecial v
+      · -- ordinary key, harmless value: unquoted
+        have hh := notSpecial' v hhs
+        refine ⟨v, by simp, hunq (fun x hx => (hh x hx).2) ?_, ?_⟩
+        · cases v with
+          | nil => simp
+          | cons c v' => simp only [List.head?_cons, ne_eq, Option.some.injEq]; exact (hh c (by simp)).1
+        · intro ⟨hex, _⟩
+          have := hexp_sp hex
+          rw [hsp] at this; cases this
+      · -- ordinary key, special value: quoted
+        refine ⟨34 :: (escape v ++ [34]), by simp, ?_, ?_⟩
+        · have : (34 :: (escape v ++ [34])) ++ tail = 34 :: (escape v ++ 34 :: tail) := by simp
+          rw [this]
+          simp [readValue, readQuoted_escape]
+        · intro ⟨hex, _⟩
+          have := hexp_sp hex
+          rw [hsp] at this; cases this
+      · obtain ⟨hall, hhead, hexp⟩ := hv' hsp
+        exact ⟨v, by simp, hunq hall hhead, fun ⟨hex, hlen⟩ => by have := hexp hex; omega⟩
+      · obtain ⟨hall, hhead, hexp⟩ := hv' hsp
+        exact ⟨v, by simp, hunq hall hhead, fun ⟨hex, hlen⟩ => by have := hexp hex; omega⟩
+    obtain ⟨X, hX, hread, hnoexp⟩ := hval
+    have hform : pre ++ fmtSc (k, some v) ++ tail = (pre ++ k) ++ 61 :: (X ++ tail) := by rw [hX]; simp
+    unfold scStep
+    rw [hform, readUntil_stop isSemiEqComma (pre ++ k) 61 (X ++ tail) hA (by decide)]
+    simp only [hstrip, hread, hnoexp, if_false]
+    rcases ht with rfl | ⟨t, rfl⟩ <;> simp
+
+private theorem scLoop_format (ps : List (Str × Option Str)) : ps ≠ [] → (∀ e ∈ ps, RepSc e) →
+    ∀ (st : ScState) (pre : Str), (pre = [] ∨ pre = [32]) → ∀ f, (pre ++ formatSetCookie ps).length < f →
+      scLoop f st (pre ++ formatSetCookie ps) = { cookies := st.cookies, pairs := st.pairs ++ ps } := by
+  induction ps with
+  | nil => intro h; exact absurd rfl h
+  | cons e es ih =>
+    intro _ hrep st pre hp f hf
+    cases f with
+    | zero => omega
+    | succ f =>
+      have he : RepSc e := hrep e (by simp)
+      by_cases hes : es = []
+      · subst hes
+        have hform : pre ++ formatSetCookie [e] = pre ++ fmtSc e ++ [] := by simp [formatSetCookie, joinSep, fmtSc, scSpecials]
+        rw [hform]
+        unfold scLoop
+        rw [sc_step_fmt st pre e [] hp he (Or.inl rfl)]
+        simp
+      · have hform : pre ++ formatSetCookie (e :: es) = pre ++ fmtSc e ++ (59 :: 32 :: formatSetCookie es) := by
+          unfold formatSetCookie
+          rw [List.map_cons, joinSep_cons _ _ (by simpa using hes)]
+          simp [fmtSc, scSpecials]
+        rw [hform] at hf ⊢
+        unfold scLoop
+        rw [sc_step_fmt st pre e _ hp he (Or.inr ⟨_, rfl⟩)]
+        simp only [List.drop_succ_cons, List.drop_zero]
+        have hne : (32 :: formatSetCookie es) ≠ [] := by simp
+        simp only [hne, if_false]
+        have := ih hes (fun x hx => hrep x (List.mem_cons_of_mem _ hx))
+          { cookies := st.cookies, pairs := st.pairs ++ [e] } [32] (Or.inr rfl) f (by
+            simp only [List.length_append, List.length_cons, List.length_nil] at hf ⊢
+            omega)
+        simp only [List.cons_append, List.nil_append] at this
+        rw [this]
+        simp
+
+/-- **C34 (Set-Cookie, one header).** A non-empty representable list (cookie name/value followed by its attributes) is read back
+    as exactly one cookie with the same pairs in the same order. -/
+theorem set_cookie_header_roundtrip (ps : List (Str × Option Str)) (hne : ps ≠ []) (h : ∀ e ∈ ps, RepSc e) :
+    parseSetCookie (formatSetCookie ps) = [ps] := by
+  unfold parseSetCookie
+  have := scLoop_format ps hne h { cookies := [], pairs := [] } [] (Or.inl rfl) ((formatSetCookie ps).length + 1) (by simp)
+  simp only [List.nil_append] at this
+  rw [this]
+  simp [hne]
+
+/-- **C34 (response cookies view).** Assigning representable cookies (each with its attributes) to `response.cookies` — one
+    Set-Cookie header per cookie — and reading the view back yields the same cookies, attributes and order. -/
+theorem set_cookie_roundtrip (cs : List (List (Str × Option Str))) (hne : ∀ c ∈ cs, c ≠ []) (h : ∀ c ∈ cs, ∀ e ∈ c, RepSc e) :
+    getSetCookies (setSetCookies cs) = cs := by
+  unfold getSetCookies setSetCookies
+  induction cs with
+  | nil => rfl
+  | cons c cs ih =>
+    simp only [List.map_cons, List.flatMap_cons]
+    rw [set_cookie_header_roundtrip c (hne c (by simp)) (h c (by simp)), List.filter_append]
+    have hc : ([c] : List (List (Str × Option Str))).filter (· ≠ []) = [c] := by
+      simp [hne c (by simp)]
+    rw [hc, ih (fun x hx => hne x (List.mem_cons_of_mem _ hx)) (fun x hx => h x (List.mem_cons_of_mem _ hx))]
+    rfl
+
+example : parseSetCookie (S "sid=abc; Path=/; HttpOnly; expires=Thu, 01 Jan 2030 00:00:00 GMT") =
+    [[(S "sid", some (S "abc")), (S "Path", some (S "/")), (S "HttpOnly", none), (S "expires", some (S "Thu, 01 Jan 2030 00:00:00 GMT"))]] := by
+  decide +kernel
+-- the guard matters: an unquoted path value holding `;` is split (F-C34f)
+example : parseSetCookie (formatSetCookie [(S "a", some (S "b")), (S "path", some (S "/x;y"))]) ≠
+    [[(S "a", some (S "b")), (S "path", some (S "/x;y"))]] := by decide +kernel
+
 /-! ### non-vacuity -/
 example : Representable [(S "a", S "b c"), (S "", S "x\"y\\z;"), (S "k", [])] := by
   intro e he
